@@ -171,6 +171,14 @@ def level2_library(name, lang, cfi, debug=False):
     fs += [F("cic", "int", [P("s", "cstr_in"), P("c", "val", "char")]),
            F("cioc", "void", [n_(), P("cap", "val", "int", role="cap"), P("s", "cstr_inout"), P("c", "val", "char")]),
            F("coc", "void", [n_(), P("s", "cstr_out", charlen=12), P("c", "val", "char")])]
+    # intent values written in upper case
+    fs += [F("uci", "int", [P("s", "cstr_in", upper=True)]),
+           F("uso", "void", [n_(), P("s", "cstr_out", charlen=12, upper=True)]),
+           F("usio", "void", [n_(), P("cap", "val", "int", role="cap"), P("s", "cstr_inout", upper=True)])]
+    if lang == "c++":
+        fs += [F("uxi", "int", [P("s", "str_cref", upper=True)]),
+               F("uxo", "void", [n_(), P("s", "str_ref_out", upper=True)]),
+               F("uxio", "void", [n_(), P("s", "str_ref_inout", explicit=True, upper=True)])]
     if lang == "c++":
         fs += [F("xic", "int", [P("s", "str_cref"), P("c", "val", "char")]),
                F("xoc", "void", [n_(), P("s", "str_ref_out"), P("c", "val", "char")]),
